@@ -216,6 +216,49 @@ def body_builder(spec):
     return body
 
 
+def body_builder_two(spec):
+    """two float-angle rotations on one connection (second angle NEAR the first, not equal to it): the decomposition is requested once
+    per rotation, for exactly that rotation's angle, and each rotation emits its own steps (state kept in the builder between rotations,
+    e.g. a cache keyed by a rounded angle, must not hand the first angle's steps to the second)"""
+    axis = spec["axis"]
+    a1, a2 = spec["angles"]
+
+    def body(inp):
+        k1 = inp.choice("nsteps1", 3)
+        k2 = 1 + inp.choice("nsteps2", 2)
+        steps1 = [(inp.int(f"n{i}", 1, 255), inp.int(f"d{i}", 0, 31)) for i in range(k1)]
+        steps2 = [(inp.int(f"m{i}", 1, 255), inp.int(f"e{i}", 0, 31)) for i in range(k2)]
+        ex = TraceExecutor("ctrl")
+        conn = PipeConnection("app", executor=ex)
+        import netqasm.sdk.builder as B
+        old = B.get_angle_spec_from_float
+        asked = []
+
+        def stub(angle, tol=1e-4):
+            asked.append(float(angle))
+            return list(steps1 if len(asked) == 1 else steps2)
+        B.get_angle_spec_from_float = stub
+        try:
+            q = Qubit(conn)
+            getattr(q, "rot_" + axis)(angle=a1)
+            if spec.get("flush_between"):
+                conn.flush()
+            getattr(q, "rot_" + axis)(angle=a2)
+            conn.flush()
+        finally:
+            B.get_angle_spec_from_float = old
+        got = [t for t in ex.trace if t[0].startswith("rot_")]
+        from ..symx import EQ
+        want = steps1 + steps2
+        ok = z3.BoolVal(len(got) == len(want))
+        if len(got) == len(want):
+            ok = z3.And(*[z3.And(z3.BoolVal(g[0] == "rot_" + axis.lower()), EQ(g[2], s_[0]), EQ(g[3], s_[1])) for g, s_ in zip(got, want)])
+        return [Ob("each_rotation_emits_the_steps_of_its_own_angle", ok, {"axis": axis, "two": True}, info={"angles": [repr(a1), repr(a2)], "emitted": len(got), "want": len(want)}),
+                Ob("decomposition_requested_for_each_angle_exactly", asked == [float(a1), float(a2)], {"axis": axis, "two": True},
+                   info={"angles": [repr(a1), repr(a2)], "asked": [repr(a) for a in asked]})]
+    return body
+
+
 def body_builder_types(spec):
     """the angle may be given as any real number type (int, numpy floats): same rotations as for the equal Python float (concrete)"""
     import numpy as np
@@ -257,6 +300,8 @@ def body_builder_types(spec):
 def body_of(spec):
     if spec.get("kind") == "builder_types":
         return body_builder_types(spec)
+    if spec.get("kind") == "builder_two":
+        return body_builder_two(spec)
     return body_builder(spec) if spec.get("kind") == "builder" else make_body(spec)
 
 
@@ -289,6 +334,10 @@ def replay(harness, cex):
         res = run_concrete(body_builder_types(spec), cex["values"])
         bad = [(lab, info) for lab, ok, site, info in res if not ok]
         return bool(bad), f"builder with a non-float angle: {bad[:2]}"
+    if spec.get("kind") == "builder_two":
+        res = run_concrete(body_builder_two(spec), cex["values"])
+        bad = [lab for lab, ok, site, info in res if not ok]
+        return bool(bad), f"second rotation of a connection: {bad}"
     if spec.get("kind") == "builder":
         res = run_concrete(body_builder(spec), cex["values"])
         bad = [lab for lab, ok, site, info in res if not ok]
@@ -407,6 +456,8 @@ def main(tier, seed):
     for axis in ("X", "Y", "Z"):
         specs.append({"kind": "builder", "axis": axis})
         specs.append({"kind": "builder_types", "axis": axis})
+        for j, (a1, a2) in enumerate([(0.570955, 0.571045), (1.0, 1.0 + 2e-5), (2.5, 2.5 - 1e-7), (-0.3, -0.3 + 3e-6), (0.75, 0.75 + 2.0 ** -40)]):
+            specs.append({"kind": "builder_two", "axis": axis, "angles": [a1, a2], "flush_between": bool(j % 2)})
     nhunt = sum(1 for sp_ in specs if sp_.get("hunt"))
     rep.bounds = [f"EXHAUSTIVE: all real angles (through r = angle mod 2 pi in [0, 2 pi]) x all tolerances in [{float(tol_lo):g}, 0.1] (the SDK's default 1e-4 "
                   f"included), partitioned by the first and second exponent; at most {MAX_STEPS} loop iterations (checked)",
@@ -414,7 +465,7 @@ def main(tier, seed):
                   "finding; also decides `drops_only_unencodable_steps` there)",
                   f"HUNTING (time-boxed, not exhaustive; explored path counts in `hunting_slices`): {nhunt} slices with a point tolerance between 1e-9 and 1e-6 "
                   "and fixed first two exponents, which need four steps",
-                  "builder: 0..3 steps with symbolic (n, d), axes X, Y, Z"]
+                  "builder: 0..3 steps with symbolic (n, d), axes X, Y, Z; two rotations on one connection with angles 2^-40 .. 9e-5 apart (5 concrete pairs, symbolic step lists, with / without a flush in between)"]
     rep.outside = [f"tolerances below {float(tol_lo):g} other than the slices above (measured: the exhaustive exploration costs 22 s down to 1e-4, 13 min down to "
                    "1e-5 on 16 cores and grows about tenfold per decade)",
                    "float rounding of `%` and `/ pi` beyond the stub contracts (relative 2^-53, absorbed by r)", "non-finite angles"]
